@@ -73,7 +73,7 @@ ASSUMPTIONS = [
     "class-level access of a decorated method, traced outside any event loop and python -O runs are unspecified",
     "real threads and a real selector loop are used; no verdict depends on timing (the blocking function is released by the heartbeat task itself)",
 ]
-MINIMUMS = {"monitor:transparent": 1500, "monitor:off-loop-thread": 300, "monitor:caller-context": 300, "monitor:no-leak": 300, "monitor:traced-scope": 200, "monitor:mimic": 20, "method_calls": 150, "kwargs_calls": 400, "awaitable_results": 100, "calls_prepared_elsewhere_and_awaited_later": 150, "calls_through_wrapped_uncommon_callables": 16, "calls_of_callables_with_another_advertised_signature": 6, "calls_through_a_hand_written_executor": 100}
+MINIMUMS = {"monitor:transparent": 1500, "monitor:off-loop-thread": 300, "monitor:caller-context": 300, "monitor:no-leak": 300, "monitor:traced-scope": 200, "monitor:mimic": 20, "method_calls": 150, "kwargs_calls": 400, "awaitable_results": 100, "calls_prepared_elsewhere_and_awaited_later": 150, "calls_through_wrapped_uncommon_callables": 16, "calls_of_callables_with_another_advertised_signature": 6, "calls_through_a_hand_written_executor": 100, "metadata_of_undocumented_functions": 4}
 JOBS = {"quick": 4, "thorough": 8}
 LEVEL_TEXT = (
     "Every (signature, call form, outcome) of an 8-signature family is run plainly and through asynchronous (function / method, default / explicit executor, both decorator forms), "
@@ -513,6 +513,13 @@ def mimic_checks(R: Recorder) -> None:
         ("retry-sync", retry, sync_fn), ("retry-async", retry, async_fn), ("retry(limit)-sync", lambda f: retry(limit=2)(f), sync_fn), ("retry(limit,delay)-async", lambda f: retry(limit=2, delay=0.1)(f), async_fn),
         ("throttle", throttle, async_fn), ("throttle(limit)", lambda f: throttle(limit=2, period=1)(f), async_fn), ("timeout", lambda f: timeout(1.0)(f), async_fn),
     ]
+    def plain_fn(a: int, b: int = 1) -> int:
+        return a + b
+
+    async def plain_async_fn(a: int, b: int = 1) -> int:
+        return a + b
+
+    variants += [(label + "-undocumented", deco, plain_fn if fn is sync_fn else plain_async_fn) for label, deco, fn in variants]
     for label, deco, fn in variants:
         try:
             w = deco(fn)
@@ -646,6 +653,7 @@ def mimic_checks(R: Recorder) -> None:
     asyncio.run(call_battery())
     # bound methods (descriptor path)
     for label, deco, is_async in (("asynchronous-method", asynchronous, False), ("cache-method-sync", cache, False), ("cache-method-async", cache, True), ("cache(limit)-method", lambda f: cache(limit=3)(f), False)):
+      for documented in (True, False):
         if is_async:
             async def meth(self: Any, a: int) -> int:
                 """method doc"""
@@ -654,15 +662,19 @@ def mimic_checks(R: Recorder) -> None:
             def meth(self: Any, a: int) -> int:  # type: ignore[misc]
                 """method doc"""
                 return a
+        if not documented:
+            meth.__doc__ = None  # a method nobody documented: its wrapper is not documented either (and certainly not by someone else's text)
+            label = label + "-undocumented"
+            R.count("metadata_of_undocumented_functions")
         try:
             K = type("K", (), {"m": deco(meth)})
             bound = K().m
-            facts = {"__name__": getattr(bound, "__name__", None) == "meth", "__doc__": getattr(bound, "__doc__", None) == "method doc", "__wrapped__": getattr(bound, "__wrapped__", None) is meth}
+            facts = {"__name__": getattr(bound, "__name__", None) == "meth", "__doc__": getattr(bound, "__doc__", None) == meth.__doc__, "__wrapped__": getattr(bound, "__wrapped__", None) is meth}
         except BaseException as exc:  # noqa: BLE001
             facts = {"binding raised " + repr(exc): False}
         bad = [k for k, v in facts.items() if not v]
         R.case({"mimic": label}, nontrivial=True)
-        R.monitor("mimic", not bad, where={"kind": "metadata-lost", "deco": label.split("-")[0].split("(")[0], "attr": bad[0] if bad else None}, detail=f"{label}: {facts}", case={"mimic": label})
+        R.monitor("mimic", not bad, where={"kind": "metadata-lost", "deco": label.split("-")[0].split("(")[0], "attr": bad[0] if bad else None, "documented": documented}, detail=f"{label}: {facts}; __doc__ of the bound wrapper: {getattr(bound, '__doc__', None)!r:.80}", case={"mimic": label})
 
 
 DECOS = ("asynchronous", "asynchronous-call", "asynchronous-executor", "asynchronous-own-executor", "wrap_async", "wrap_async-of-async", "traced", "traced-async")
